@@ -191,6 +191,7 @@ def _run_check(mod, prop, tier, seed, replay, only, scratch, t_start):
 
     if replay is not None:
         r = json.loads(Path(replay).read_text())
+        os.environ["VERIF_SEED"] = str(r["seed"])
         rec = _run_one(mod, prop, r["seed"], r["idx"], r.get("tier", tier))
         print(json.dumps(rec, indent=1)[:20000])
         if rec["violations"]:
